@@ -28,16 +28,19 @@ class OsProxy:
     def __getattr__(self, name):
         return getattr(self._real, name)
 
+    def virtualise(self, st):
+        size, mtime, ctime = self.virtual
+        lst = list(st)
+        lst[6] = size
+        d = {"st_atime": float(st.st_atime), "st_mtime": mtime, "st_ctime": ctime,
+             "st_atime_ns": st.st_atime_ns, "st_mtime_ns": int(mtime * 1e9), "st_ctime_ns": int(ctime * 1e9)}
+        lst[7], lst[8], lst[9] = int(st.st_atime), int(mtime), int(ctime)
+        return self._real.stat_result(tuple(lst), d)
+
     def stat(self, path, *a, **k):
         st = self._real.stat(path, *a, **k)
         if self.virtual is not None and self._real.path.realpath(path) == self._target:
-            size, mtime, ctime = self.virtual
-            lst = list(st)
-            lst[6] = size
-            d = {"st_atime": float(st.st_atime), "st_mtime": mtime, "st_ctime": ctime,
-                 "st_atime_ns": st.st_atime_ns, "st_mtime_ns": int(mtime * 1e9), "st_ctime_ns": int(ctime * 1e9)}
-            lst[7], lst[8], lst[9] = int(st.st_atime), int(mtime), int(ctime)
-            return self._real.stat_result(tuple(lst), d)
+            return self.virtualise(st)
         return st
 
 
@@ -75,6 +78,19 @@ def run(ctx):
     proxy = OsProxy(os, os.path.realpath(target))
     saved = SF.os
     SF.os = proxy
+    # ... and os.stat itself answers virtually for that one file, so that the check does not depend on HOW the library reaches stat()
+    # (os.stat through its own `os` name, os.path.getmtime, pathlib)
+    real_stat = os.stat
+
+    def vstat(path, *a, **k):
+        st = real_stat(path, *a, **k)
+        try:
+            if proxy.virtual is not None and isinstance(path, (str, bytes, os.PathLike)) and os.path.realpath(path) == proxy._target:
+                return proxy.virtualise(st)
+        except (OSError, ValueError):
+            pass
+        return st
+    os.stat = vstat
     apps = [("Files", "wsgi", W.Files(base), "/page.html"), ("Files", "asgi", A.Files(base), "/page.html"),
             ("Pages", "wsgi", W.Pages(base), "/page"), ("Pages", "asgi", A.Pages(base), "/page.html")]
     TPS = K["TPS"]
@@ -161,6 +177,7 @@ def run(ctx):
         ctx.sample({"history_example": "Plain; RewriteSameSize; Cond(1, weakListLast) -> 200 with new validators", "apps": [a[0] + "/" + a[1] for a in apps]})
     finally:
         SF.os = saved
+        os.stat = real_stat
         shutil.rmtree(base, True)
     ctx.exhaustive = True
 
